@@ -45,6 +45,9 @@ fn must_refuse(w: &mut World, key: &mut UserSecretKey, what: &str, clause: &str)
         }
         if ser(key) != before_u {
             w.fail("C10.b", format!("refused refresh of {what} modified the user key"));
+            if let Some(m) = crate::world::tracing_part_changed(&before_u, &ser(key)) {
+                w.fail("C17.g", format!("refused refresh of {what}: {m}"));
+            }
         }
     }
 }
